@@ -91,6 +91,16 @@ func runC04(c *mon.Ctx) {
 					return
 				}
 				zf := FrFromBig(z)
+				// history: the caller evaluated p(z) itself through the exported coefficient function and worked in place in
+				// the vector it was given (its own, by the function's signature); the opening at z must not depend on it
+				if z.Cmp(big.NewInt(255)) > 0 && (pi+p)%3 == 1 {
+					var bc []fr.Element
+					mon.Try(func() { bc = env.Conf.PrecomputedWeights.ComputeBarycentricCoefficients(zf) })
+					for i := range bc {
+						bc[i].Mul(&bc[i], &lv[i%len(lv)])
+					}
+					c.Count("coefficient_vectors_overwritten_before_opening", 1)
+				}
 				snap := append([]fr.Element(nil), lv...)
 				rep := Rerepresent(&comm, rng.Intn(NumRepKinds), rng)
 				ptr := common.NewTranscript("c04")
@@ -140,9 +150,18 @@ func runC04(c *mon.Ctx) {
 					var verr error
 					vtr := common.NewTranscript("c04")
 					cm := Rerepresent(&comm, rng.Intn(NumRepKinds), rng)
+					prL, prR := append([]banderwagon.Element(nil), pr.L...), append([]banderwagon.Element(nil), pr.R...)
 					if pv, _ := mon.Try(func() { ok, verr = ipa.CheckIPAProof(vtr, env.Conf, cm, pr, zf, FrFromBig(res)) }); pv != nil {
 						c.Fail("panic/CheckIPAProof/point="+names[pi], fmt.Sprintf("CheckIPAProof panicked at point %s: %v", names[pi], pv), nil)
 						continue
+					}
+					for i := range prL {
+						if i >= len(pr.L) || i >= len(pr.R) || pr.L[i] != prL[i] || pr.R[i] != prR[i] {
+							c.Fail("input-modified/CheckIPAProof/proof", "CheckIPAProof changed the caller's proof object (its L/R points are not bitwise what they were)", nil)
+							copy(pr.L, prL)
+							copy(pr.R, prR)
+							break
+						}
 					}
 					det := map[string]interface{}{"polynomial": kname, "point": z.Text(16), "point_class": names[pi], "claimed": rname, "claimed_value": res.Text(16), "p(point)": correct.Text(16)}
 					switch {
